@@ -171,6 +171,25 @@ class Renamed(nn.Module):
         return self.base.h(t, y)
 
 
+class TimeSwitched(nn.Module):
+    """Drift and diffusion come from `a` before t_switch and from `b` afterwards (plain Python control flow on the time):
+    which parameters take part in the computation depends on when the SDE is evaluated."""
+
+    def __init__(self, a, b, t_switch):
+        super().__init__()
+        self.a, self.b, self.t_switch = a, b, float(t_switch)
+        self.noise_type, self.sde_type, self.m, self.d = a.noise_type, a.sde_type, a.m, a.d
+
+    def _pick(self, t):
+        return self.a if float(t) < self.t_switch else self.b
+
+    def f(self, t, y):
+        return self._pick(t).f(t, y)
+
+    def g(self, t, y):
+        return self._pick(t).g(t, y)
+
+
 class Plain:
     """An SDE object that is not an nn.Module (f and g given as callables)."""
 
@@ -225,6 +244,8 @@ def solve(cell, sde, y0, ts, dt, entropy=None, bm=None, adjoint=False, **kw):
         bm = torchsde.BrownianInterval(t0=t0, t1=t1, size=(y0.size(0), sde.m), dtype=y0.dtype, entropy=entropy,
                                        levy_area_approximation=levy_for(cell["method"]))
     options = dict(cell["options"]) if cell.get("options") else None
+    if "options_obj" in kw:  # the caller's own dict object, handed over as it is (and possibly re-used across calls)
+        options = kw.pop("options_obj")
     fn = torchsde.sdeint_adjoint if adjoint else torchsde.sdeint
     return fn(sde, y0, ts, bm=bm, method=cell["method"], dt=dt, options=options, **kw)
 
